@@ -163,6 +163,9 @@ def _exp_factor(fi, ctx, rule) -> Optional[List[Fraction]]:
     return out
 
 
+_WRONG_STEP: list = []
+
+
 def _half_offsets(fi, varnames=("ix", "iy", "iz")) -> Optional[List[Fraction]]:
     """For the reference / k.p implementations: offsets c_i with corner shift (i + c)·dK → [c(0), c(1)]."""
     cfg, du, pm = fctx(fi)
@@ -179,7 +182,7 @@ def _half_offsets(fi, varnames=("ix", "iy", "iz")) -> Optional[List[Fraction]]:
                         shift = -shift
                     bb = du.resolve_local(b, cfg.node(s))
                     if "dK_fullBZ" not in norm(bb):
-                        return None
+                        _WRONG_STEP.append((fi, s, norm1(bb, 70)))
                     return [Fraction(0) + shift, Fraction(1) + shift]
     return None
 
@@ -228,7 +231,12 @@ def run(ctx) -> None:
     ref = idx.function(DK, "Data_K.E_K_corners_parallel_test")
     kp = idx.function(DKK, "Data_K_k.E_K_corners_parallel")
     for f in (ref, kp):
+        _WRONG_STEP.clear()
         ho = _half_offsets(f)
+        for f_w, st_w, txt_w in _WRONG_STEP:
+            r3.violation(f_w, st_w, f"{f_w.qualname}: the corner offsets are multiplied by `{txt_w}`, not by the K-point's own cell size "
+                         f"`self.Kpoint.dK_fullBZ`: for a K-point created by adaptive refinement (smaller cell) the corner energies are taken at the "
+                         f"corners of another cell than the one the fast path and the tetrahedron weights use", stmt="corner step")
         if ho is None:
             raise AnalysisError(f"{f.short}: corner shift `(np.array([ix, iy, iz]) - 1/2) * dK_fullBZ` not recognised")
         r3.instance(f"{f.short}: offsets {[str(x) for x in ho]}")
@@ -305,6 +313,7 @@ def _only_raises(fn: ast.AST) -> bool:
 from ..selftest import V  # noqa: E402
 
 SELFTEST = [
+    V("k.p corner cell taken from the initial grid (seeded C33-m4)", DKK, "        dK = self.Kpoint.dK_fullBZ\n", "        dK = 1. / self.grid.dense\n", "fire", "R33.3"),
     V("down-spin tetra phases taken from the up channel (original defect)", DKS,
       "expdK_down = self.data_K_down.expdK_corners_tetra", "expdK_down = self.data_K_up.expdK_corners_tetra", "fire", "R33.1"),
     V("down-spin parallel phases taken from the up channel (original defect)", DKS,
